@@ -22,7 +22,12 @@ fn ts_infix_from_path(path: &Path, file_spec: &FileSpec) -> String {
         .to_string_lossy()
         .find("rXXXXX")
         .unwrap();
-    String::from_utf8_lossy(&path.to_string_lossy().as_bytes()[idx..idx + 20]).to_string()
+    // (names of unrelated files can be shorter)
+    path.to_string_lossy()
+        .as_bytes()
+        .get(idx..idx + 20)
+        .map(|bytes| String::from_utf8_lossy(bytes).to_string())
+        .unwrap_or_default()
 }
 
 pub(crate) fn timestamp_from_ts_infix(
